@@ -56,6 +56,7 @@ func (c12) Generate(seed uint64, tier string, index int) any {
 		opts := [][]string{{"-rt"}, {"-a"}, {"-rtc"}, {"-rlt"}, {"-rtp"}}[g.R.Intn(5)]
 		to := TreeOpts{MaxEntries: 10, ByteBudget: 200 << 10, PlainNames: g.R.Bool(), Symlinks: true}
 		sc := genSync(g, "A1", opts, to, false)
+		SanitizeKnown(&sc.Src)
 		sc.ModuleFS = false
 		sc.Sources = []SrcArg{{Path: "", Slash: true}}
 		sc.Dst = fstree.Tree{}
